@@ -167,6 +167,9 @@ structure Cfg where
   -- variants of the backend (both false = the unchanged code)
   atomicReplace : Bool := false  -- docs/C11-fix-1.diff applied: tmpfile.link replaces by rename, never removes first
   tagsFirst : Bool := false      -- docs/C11-fix-2.diff applied: PutObject writes the tags onto the temp file
+  lock : Bool := false           -- the bucket was created with object lock: legal hold is part of what the API shows
+  holdFirst : Bool := false      -- docs/C11-fix-3.diff applied: PutObject writes legal hold / retention onto the temp file
+  copyTagsFirst : Bool := false  -- docs/C05-fix-4.diff applied: CopyObject hands the source's tags to PutObject (temp file)
 deriving DecidableEq, Repr, Inhabited
 
 inductive Op where
@@ -181,6 +184,7 @@ structure Req where
   metaKeys : List String := []     -- put: x-amz-meta-* names
   ctype : Bool := false            -- put: Content-Type supplied
   tags : Bool := false             -- put: x-amz-tagging supplied
+  hold : Bool := false             -- put / copy: x-amz-object-lock-legal-hold: ON (object-lock bucket)
   src : Path := []                 -- copy: source key
   upload : String := ""            -- uploadPart / complete
   partNo : String := "1"
@@ -365,20 +369,26 @@ def planPutSpec (cfg : Cfg) (rq : Req) (fs : FS) (key : Path) (sp : PutSpec) : L
   let s8 := storeAttrs cfg (run s7 fs6) (.path obj) obj sp.postAttrs
   pre ++ s7 ++ s8
 
+/-- PutObject sets the legal hold (PutObjectLegalHold; retention alike) by NAME after the publication — or, with
+    docs/C11-fix-3.diff (`holdFirst`), onto the temp file after the tags. -/
+def holdAttr (rq : Req) : List (String × Val) := if rq.hold then [("object-legal-hold", "new")] else []
+
 def putSpecOf (cfg : Cfg) (rq : Req) : PutSpec :=
   let tg : List (String × Val) := if rq.tags then [("X-Amz-Tagging", "new")] else []
   { data := rq.data, falloc := rq.falloc,
     attrs := rq.metaKeys.map (fun k => ("X-Amz-Meta." ++ k, "new")) ++ [("checksums", "new"), ("etag", "new")] ++
              (if rq.ctype then [("content-type", "new")] else []),
-    postAttrs := if cfg.tagsFirst then [] else tg,
-    tailAttrs := if cfg.tagsFirst then tg else [] }
+    postAttrs := (if cfg.tagsFirst then [] else tg) ++ (if cfg.holdFirst then [] else holdAttr rq),
+    tailAttrs := (if cfg.tagsFirst then tg else []) ++ (if cfg.holdFirst then holdAttr rq else []) }
 
 def planPut (cfg : Cfg) (rq : Req) (fs : FS) : List Step := planPutSpec cfg rq fs rq.key (putSpecOf cfg rq)
 
 def isMetaAttr (a : String) : Bool := "X-Amz-Meta.".isPrefixOf a
 
 /-- CopyObject, destination ≠ source, directives COPY: PutObject fed from the source's data and attributes
-    (new checksums and ETag), then the source's tags stored by name on the destination. -/
+    (new checksums and ETag). The source's tags: stored by name on the destination after PutObject returned
+    (before docs/C05-fix-4.diff), or handed to PutObject, which writes them onto the temp file after the version
+    id like its own tags (`copyTagsFirst`). -/
 def planCopy (cfg : Cfg) (rq : Req) (fs : FS) : List Step :=
   let src := objPath cfg rq.src
   match fs.get src with
@@ -389,7 +399,9 @@ def planCopy (cfg : Cfg) (rq : Req) (fs : FS) : List Step :=
     let tg : List (String × Val) := match readAttr cfg fs src "X-Amz-Tagging" with
       | some v => [("X-Amz-Tagging", v)]
       | none => []
-    let sp : PutSpec := ⟨data, data != "", metas ++ [("checksums", "new"), ("etag", "new")] ++ ct, tg, []⟩
+    let sp : PutSpec := ⟨data, data != "", metas ++ [("checksums", "new"), ("etag", "new")] ++ ct,
+      (if cfg.copyTagsFirst then [] else tg) ++ (if cfg.holdFirst then [] else holdAttr rq),
+      (if cfg.copyTagsFirst then tg else []) ++ (if cfg.holdFirst then holdAttr rq else [])⟩
     planPutSpec cfg rq fs rq.key sp
   | _ => []
 
@@ -509,9 +521,10 @@ structure ObjView where
   umeta : List (String × Val)
   vid : Option Val          -- none: no versioning directory configured
   tags : Option Val
+  hold : Option Val         -- GetObjectLegalHold
 deriving DecidableEq, Repr, Inhabited
 
-/-- GetObject / HeadObject / GetObjectTagging of the current version of a file key. -/
+/-- GetObject / HeadObject / GetObjectTagging / GetObjectLegalHold of the current version of a file key. -/
 def view (cfg : Cfg) (fs : FS) (key : Path) : Option ObjView :=
   let obj := objPath cfg key
   match fs.get obj with
@@ -522,7 +535,8 @@ def view (cfg : Cfg) (fs : FS) (key : Path) : Option ObjView :=
            ctype := (readAttr cfg fs obj "content-type").filter (· != "")
            umeta := (listAttrs cfg fs obj).filter isMetaAttr |>.filterMap (fun a => (readAttr cfg fs obj a).map (fun v => (a, v)))
            vid := if cfg.verDir then some ((readAttr cfg fs obj "version-id").getD "null") else none
-           tags := readAttr cfg fs obj "X-Amz-Tagging" }
+           tags := readAttr cfg fs obj "X-Amz-Tagging"
+           hold := (readAttr cfg fs obj "object-legal-hold").filter (· != "") }
   | _ => none
 
 /-- ListObjectsV2 entry of the key: `some etag` when listed. Listings skip `.sgwtmp`. -/
